@@ -41,6 +41,12 @@ func mkCase(seed int64, sub string, idx int) wcase {
 	r := core.CaseRng(seed, sub, idx)
 	target := []int{150, 900, 3000, 4500, 9000, 20000}[idx%6]
 	nb := 1 + r.Intn(6)
+	if strings.HasPrefix(sub, "inproc-big") {
+		// 9 or 17 MiB written as many small batches: whatever a writer changes once a stream has
+		// grown (buffer sizes, flush policy) happens somewhere along the way
+		target = []int{9 << 20, 17 << 20}[idx%2]
+		nb = 5000 + r.Intn(3000) // batches of 1-2 KB: smaller than any output buffer
+	}
 	per := target / (nb * 2 * 70)
 	if per < 1 {
 		per = 1
@@ -89,6 +95,9 @@ func faultMain(args []string) int {
 	case "short":
 		sink.FailAt = k
 		sink.Short = true
+	case "oneshot":
+		sink.FailAt = k
+		sink.OneShot = true
 	case "close":
 		sink.FailClose = true
 	}
@@ -204,6 +213,71 @@ func runInproc(c *core.Ctx, kind string) {
 	for i := 0; i < c.Pick(3, 20); i++ {
 		if !check("short", c.Rng.Intn(total)) {
 			return
+		}
+	}
+	// (d) transient faults: one write is refused, the sink accepts everything afterwards
+	for i := 0; i < c.Pick(4, 30); i++ {
+		if !check("oneshot", c.Rng.Intn(total)) {
+			return
+		}
+	}
+}
+
+// runInprocBig: outputs of 9 / 17 MiB; sticky and one-shot (transient) refusals of the write that
+// crosses the offsets where a growing stream may change regime: 64 KiB, 1, 2, 4, 8, 16 MiB.
+func runInprocBig(c *core.Ctx) {
+	kind := []string{"fasta", "fastq"}[(c.Idx/2)%2]
+	self, _ := os.Executable()
+	run := func(fault string, k int) (refused bool, exit int, bytes int, res cmdx.Res) {
+		res = cmdx.Run(self, []string{"c18fault", kind, fmt.Sprint(c.Seed), c.Sub, fmt.Sprint(c.Idx), fault, fmt.Sprint(k)}, cmdx.Opt{Timeout: 300 * time.Second})
+		refused = strings.Contains(string(res.Stderr), "VH-REFUSED")
+		fmt.Sscanf(string(res.Stdout), "VH-BYTES %d", &bytes)
+		return refused, res.Exit, bytes, res
+	}
+	_, exit, total, res := run("none", 0)
+	if exit != 0 || total == 0 {
+		if res.TimedOut {
+			c.Inconclusive("watchdog on the fault-free run")
+			return
+		}
+		c.Violate("spurious-failure", "the writer fails although the sink accepted everything", map[string]any{"writer": kind, "exit": exit, "stderr": cmdx.Tail(res.Stderr, 800)})
+		return
+	}
+	c.Sample(map[string]any{"writer": kind, "output_bytes": total, "fault_points": "sticky and one-shot refusal of the write crossing 64 KiB, 1, 2, 4, 8, 16 MiB (sticky: -1, +0, +4097; one-shot: every KiB from -3500 to +4097)"})
+	for _, t := range []int{64 << 10, 1 << 20, 2 << 20, 4 << 20, 8 << 20, 16 << 20} {
+		for _, d := range []int{-3500, -2500, -1500, -500, -1, 0, 700, 1700, 2700, 4097} {
+			k := t + d
+			if k >= total {
+				continue
+			}
+			for _, fault := range []string{"write", "oneshot"} {
+				if fault == "write" && d != -1 && d != 0 && d != 4097 {
+					continue // the sticky fault at three offsets, the transient one every KiB around the threshold
+				}
+				refused, exit, _, res := run(fault, k)
+				c.Count("evaluations", 1)
+				c.Count("fault_points."+fault, 1)
+				if res.TimedOut {
+					if res.Deadlock {
+						c.Violate("deadlock:"+fault, "the writer dead-locks after a refused write", map[string]any{"writer": kind, "fault": fault, "k": k, "dump": cmdx.Tail(res.Stderr, 3000)})
+						return
+					}
+					c.Inconclusive("watchdog on a fault run")
+					continue
+				}
+				if refused {
+					c.Key("big/%s/%s/%d", kind, fault, t>>16)
+					c.Count("refusals_delivered", 1)
+				}
+				if refused && exit == 0 {
+					c.Violate("exit0:"+fault+":big", "the sink refused a write but the process exits with status 0", map[string]any{"writer": kind, "output_bytes": total, "fault": fault, "k": k})
+					return
+				}
+				if !refused && exit != 0 {
+					c.Violate("spurious-failure", "non-zero exit although nothing was refused", map[string]any{"writer": kind, "fault": fault, "k": k, "exit": exit, "stderr": cmdx.Tail(res.Stderr, 800)})
+					return
+				}
+			}
 		}
 	}
 }
@@ -414,6 +488,10 @@ func runStraceClose(c *core.Ctx) {
 			args = append(args, in)
 			res = cmdx.Run("/bin/sh", append([]string{"-c", `exec strace "$@" > "$VH_OUT"`, "sh"}, args...), cmdx.Opt{Env: []string{"VH_OUT=" + out}})
 		} else {
+			if c.Idx%2 == 1 {
+				// the result replaces a file left by an earlier run
+				os.WriteFile(out, []byte(">old\nacgt\n"), 0o644)
+			}
 			args = append(args, "-o", out, in)
 			res = cmdx.Run("strace", args, cmdx.Opt{})
 		}
@@ -421,7 +499,7 @@ func runStraceClose(c *core.Ctx) {
 		os.Remove(out)
 		c.Count("evaluations", 1)
 		c.Count("strace_runs", 1)
-		det := map[string]any{"command": cm.bin, "args": base, "records": n, "close_errno": errno, "output_on_stdout": toStdout, "exit": res.Exit, "strace": cmdx.Tail(tr, 400), "stderr": cmdx.Tail(res.Stderr, 600)}
+		det := map[string]any{"command": cm.bin, "args": base, "records": n, "close_errno": errno, "output_on_stdout": toStdout, "output_file_exists_before": !toStdout && c.Idx%2 == 1, "exit": res.Exit, "strace": cmdx.Tail(tr, 400), "stderr": cmdx.Tail(res.Stderr, 600)}
 		if res.TimedOut {
 			c.Inconclusive("watchdog on strace " + cm.bin)
 			continue
@@ -512,6 +590,7 @@ func init() {
 		subs = append(subs, core.Sub{Name: "inproc-" + kind, N: core.Const(24, 60), Shard: 2, TimeoutS: 3000, Run: func(c *core.Ctx) { runInproc(c, kind) }})
 	}
 	subs = append(subs,
+		core.Sub{Name: "inproc-big", N: core.Const(2, 4), Shard: 1, TimeoutS: 3000, Run: runInprocBig},
 		core.Sub{Name: "e2e-devfull", N: core.Const(25, 100), Run: runDevFull},
 		core.Sub{Name: "e2e-strace", N: core.Const(10, 40), Run: runStrace},
 		core.Sub{Name: "e2e-fifo", N: core.Const(7, 42), Run: runFifo},
@@ -521,7 +600,7 @@ func init() {
 		ID:    "C18",
 		Level: "fault_enumeration",
 		Rule: "fault points: for each (writer, output size class below/above the 4 KiB buffer, batch arrival order, plain/gzip) the write crossing byte offset k is refused for k over the whole output (step 1 up to 8 KiB in the thorough tier, <= 160 sampled offsets per output in quick), plus a refused Close and short writes; end to end: commands writing to /dev/full (stdout and -o) and strace injecting ENOSPC on the N-th write(2) of the -o file, or EIO/ENOSPC on its close(2). Oracle: a refusal announced by the sink implies a non-zero exit status of the process (one helper process per fault point running the real writer; the commands themselves end to end). " +
-			"Added later: errno-shaped faults (ENOSPC, EPIPE, EIO, EINTR, EDQUOT), the default output path, a result without any record under write injection, close(2) faults on -o FILE and on the redirected standard output, an output pipe whose reader goes away. " +
+			"Added later: errno-shaped faults (ENOSPC, EPIPE, EIO, EINTR, EDQUOT), the default output path, a result without any record under write injection, close(2) faults on -o FILE and on the redirected standard output, an output pipe whose reader goes away. Transient (one-shot) write faults, inproc-big (9 / 17 MiB written as 1-2 KB batches, faults every KiB around 64 KiB, 1, 2, 4, 8, 16 MiB), the close fault also when the output file exists before the run. " +
 			"distinct_nontrivial = distinct (writer, fault kind, size class, compression, phase) classes in which a refusal was actually delivered + distinct (command, mode, size) / (command, size, N) end-to-end runs in which the fault was effective",
 		Assume:        []string{"helper process = real writer + faulty io.WriteCloser + obiiter.WaitForLastPipe, nothing else", "e2e: /dev/full returns ENOSPC on every write; strace -e inject fails exactly the N-th write(2) of each thread on the output path"},
 		Subs:          subs,
